@@ -416,24 +416,9 @@ Qed.
 Lemma Inv_step : forall st l st', Inv st -> step st l st' -> Inv st'.
 Proof.
   intros st l st' (H1 & H2 & H3 & H4 & H5 & H6 & H7 & H8 & H9 & H11 & H12 & H13 & H14) Hs.
-  unfold Inv. repeat split.
-  - eapply I1_step; eauto.
-  - eapply I2_step; eauto.
-  - eapply I3_step; eauto.
-  - eapply I3_step; eauto.
-  - eapply I4_step; eauto.
-  - eapply I5_step; eauto.
-  - eapply I5_step; eauto.
-  - eapply I6_step; eauto.
-  - eapply I6_step; eauto.
-  - eapply I6_step; eauto.
-  - eapply I7_step; eauto.
-  - eapply I8_step; eauto.
-  - eapply I9_step; eauto.
-  - eapply I11_step; eauto.
-  - eapply I12_step; eauto.
-  - eapply I13_step; eauto.
-  - eapply I14_step; eauto.
+  unfold Inv. repeat (match goal with |- _ /\ _ => split end);
+  eauto using I1_step, I2_step, I3_step, I4_step, I5_step, I6_step, I7_step, I8_step, I9_step,
+              I11_step, I12_step, I13_step, I14_step.
 Qed.
 
 Lemma Inv_steps : forall st tr st', steps st tr st' -> Inv st -> Inv st'.
@@ -522,3 +507,61 @@ Lemma done_never_launched_later : forall st tr st', done st = true ->
 Proof.
   intros st tr st' Hd Ho Hs. eapply done_never_launched; eauto. intros s. apply sover_nolaunch, Ho.
 Qed.
+
+(* ==================================================================
+   Single scheduler slot (the same experiment run again and again)
+   ================================================================== *)
+Definition J1 (st : jobdir) := forall s, s <> 0 -> scheds st s = SIdle.
+Definition J2 (st : jobdir) := sprelaunch (scheds st 0) = true -> forall p, pidf st = Some p -> alive (procs st p) = false.
+Definition J7 (st : jobdir) := scheds st 0 = SSpawn -> script st = SFull.
+Definition goodproc (st : jobdir) (p : nat) := (procs st p = PExec -> script st = SFull) /\ procs st p <> PExit XNop.
+Definition J3 (st : jobdir) := forall p, pidf st = Some p -> goodproc st p.
+Definition J4 (st : jobdir) := forall p, schild (scheds st 0) = Some p -> goodproc st p.
+Definition J5 (st : jobdir) := scheds st 0 = SFinal VDone -> done st = true.
+Definition J8 (st : jobdir) := forall d, scheds st 0 = STest2 true d -> done st = true \/ 1 <= aborts st.
+
+Ltac single Hl := simpl in Hl; unfold lbl_single in Hl; simpl in Hl; try subst.
+
+Lemma J1_step : forall st l st', lbl_single l -> J1 st -> step st l st' -> J1 st'.
+Proof.
+  intros st l st' Hl H Hs q Hq. destruct l; single Hl; destr_step Hs; simp;
+  try (apply H; assumption); upd_cases; try congruence; apply H; assumption.
+Qed.
+
+Lemma alive_not : forall c, alive c = false -> c = PNone \/ exists x, c = PExit x.
+Proof. destruct c; simpl; intros; try discriminate; eauto. Qed.
+
+Lemma J2_step : forall st l st', lbl_single l -> Inv st -> J1 st -> J2 st -> step st l st' -> J2 st'.
+Proof.
+  intros st l st' Hl HI H1 H Hs Hq x Hx.
+  destruct HI as (_ & _ & _ & _ & _ & _ & H7 & _ & _ & _ & H12 & _ & H14).
+  destruct l; single Hl; destr_step Hs; simp;
+  try (rewrite upd_same in Hq; simpl in Hq); try discriminate;
+  try (inversion Hx; subst; assumption);
+  try (assert (Hold : alive (procs st x) = false)
+         by (apply H; [first [assumption | rewrite E; reflexivity | rewrite E0; reflexivity] | assumption]);
+       upd_cases; simp; first [exact Hold | rewrite E in Hold; discriminate Hold | rewrite E0 in Hold; discriminate Hold | reflexivity]);
+  try congruence.
+Qed.
+
+Lemma J7_step : forall st l st', lbl_single l -> J1 st -> J7 st -> step st l st' -> J7 st'.
+Proof.
+  intros st l st' Hl H1 H Hs Hq. destruct l; single Hl; destr_step Hs; simp;
+  try (rewrite upd_same in Hq); try discriminate; try reflexivity;
+  try (apply H; assumption).
+Qed.
+
+Lemma J3_step : forall st l st', lbl_single l -> Inv st -> J1 st -> J2 st -> J3 st -> J4 st -> step st l st' -> J3 st'.
+Proof.
+  intros st l st' Hl HI H1 H2 H H4 Hs x Hx.
+  destruct HI as (_ & _ & _ & _ & _ & _ & H7 & _ & _ & _ & H12 & _ & H14).
+  unfold goodproc in *.
+  destruct l; single Hl; destr_step Hs; simp; try discriminate;
+  try (apply H; assumption);
+  try (pose proof (H _ Hx) as [Ha Hb]);
+  try (split; [intros Hy|intros Hy]; upd_cases; simp; try discriminate; try reflexivity; try congruence; eauto).
+  all: idtac "---"; try (exfalso; assert (Hal : alive (procs st x) = false) by (apply H2; [rewrite E; reflexivity|assumption]); rewrite Hy in Hal; discriminate Hal);
+    try (exfalso; specialize (H12 _ Hx); lia);
+    try (inversion Hx; subst; destruct (H4 x) as [Hc Hd]; [rewrite E; reflexivity|]; first [apply Hc; assumption | apply Hd; assumption]);
+    try (specialize (Ha E); congruence).
+Show. all: idtac "---". Abort.
